@@ -36,6 +36,12 @@ def _coerce_val(dt, v, ctx):
         return dt.make("VReal", v.t)
     if isinstance(v, SStr):
         return z3.If(v.t == -1, dt.make("VNone"), dt.make("VStr", v.t)) if v.optional else dt.make("VStr", v.t)
+    from vf.pyvc.values import SOpaque, SList
+    if isinstance(v, SOpaque):
+        return dt.make("VAny", v.t)
+    if isinstance(v, SList) and type(v.elem).__name__ == "TChar":
+        from vf.pyvc.chars import text_id
+        return dt.make("VStr", text_id(v))
     return None
 
 
@@ -51,7 +57,7 @@ def _coerce_exprlist(dt, v, ctx):
 
 VAL, = REG.declare_datatypes([dict(name="Val", ctors=[
     ("VNone", None, []), ("VInt", None, [("i", "int")]), ("VReal", None, [("r", "real")]),
-    ("VStr", None, [("s", "str")]), ("VBool", None, [("b", "bool")])], coerce=_coerce_val)])
+    ("VStr", None, [("s", "str")]), ("VBool", None, [("b", "bool")]), ("VAny", None, [("u", "any")])], coerce=_coerce_val)])
 
 
 def _val_isinstance(dt, t, c):
